@@ -215,11 +215,12 @@ class Ctx:
                 for j, ev in enumerate(traces[i]):
                     evs.append(ev); owner.append((i, j + 1))
             ok, hw, out = self.validate_events(module, cfg, evs, family=family, timeout=timeout, dfs=dfs)
-            for m in re.finditer(r'<<"MISMATCH", (\d+), (.*)>>', out):
+            # TLC's pretty printer wraps medium-long tuples over several lines: match across lines
+            for m in re.finditer(r'<<\s*"MISMATCH",\s*(\d+),\s*(.*?)\s*>>[ \t]*\r?\n(?=\S|$)', out, re.S):
                 ln = int(m.group(1)) - 1
                 if ln < hw or ok:
                     i, j = owner[ln]
-                    rejected.append((i, j - 1, traces[i][j - 1], m.group(2)))
+                    rejected.append((i, j - 1, traces[i][j - 1], re.sub(r'\s+', ' ', m.group(2))))
             if ok:
                 break
             i, j = owner[hw]  # first unexplained line (0-based index hw)
